@@ -1,6 +1,6 @@
 --------------------------- MODULE DaskFlowTrace ---------------------------
 (* Trace validation of real scatter ... gather pipelines on an in-process dask cluster against DaskFlow.  *)
-(* ScatterDone, HandOver and PassTurn are silent.  A loss of emission order is reported per occurrence instead of      *)
+(* PassTurn and GatherFail (and, in front of a buffer, ScatterDone) are silent; the call of gather.update is logged.  A loss of emission order is reported per occurrence instead of      *)
 (* stopping the run (the engine demands it of producers that await their emits).                        *)
 EXTENDS DaskFlow, Json, IOUtils, TLCExt
 Traces == JsonDeserialize(IOEnv.TRACE_FILE)
@@ -12,12 +12,15 @@ Max(a, b) == IF a > b THEN a ELSE b
 TraceInit == /\ tid \in 1 .. Len(Traces) /\ l = 1 /\ Init /\ TLCSet(tid, 1)
 EventBody(ev) ==
     CASE ev.ev = "EmitCall" -> EmitCall(ev.e)
+      [] ev.ev = "GatherCall" -> IF Buffered THEN HandOver(ev.e) ELSE ScatterDone(ev.e)
       [] ev.ev = "TaskFinish" -> TaskFinish(ev.e)
       [] ev.ev = "Deliver" -> GatherDone(ev.e)
       [] ev.ev = "ConsumerDone" -> ConsumerDone(ev.e)
       [] ev.ev = "Release" -> Release(ev.e) /\ (ev.fired <=> Len(fired') > Len(fired))
       [] ev.ev = "EmitDone" -> EmitDone(ev.e)
-      [] ev.ev = "End" -> Quiescent /\ Len(delivered) = called /\ Same
+      [] ev.ev = "TaskFail" -> TaskFail(ev.e)
+      [] ev.ev = "EmitRaised" -> EmitRaised(ev.e)
+      [] ev.ev = "End" -> Quiescent /\ Len(delivered) + Cardinality(Failed) = called /\ Same
       [] OTHER -> FALSE
 Event(ev) ==
     /\ ("e" \in DOMAIN ev) => ev.e \in Elems            \* a value that is not one of the local pipeline's results maps to -1
@@ -26,7 +29,7 @@ TraceNext ==
     \/ /\ l <= Len(T) /\ Event(T[l])
        /\ l' = l + 1 /\ TLCSet(tid, Max(TLCGet(tid), l + 1)) /\ UNCHANGED tid
        /\ ((SameOrder /\ ~SameOrder') => PrintT(<<"UNSAFE", Traces[tid].id, l>>))
-    \/ /\ l <= Len(T) /\ (\E e \in Elems : ScatterDone(e) \/ HandOver(e) \/ PassTurn(e)) /\ UNCHANGED <<tid, l>>
+    \/ /\ l <= Len(T) /\ (\E e \in Elems : (Buffered /\ ScatterDone(e)) \/ PassTurn(e) \/ GatherFail(e)) /\ UNCHANGED <<tid, l>>
 TraceSpec == TraceInit /\ [][TraceNext]_tvars
 TraceInv == ExactlyOnce /\ Lossless /\ CallOrder /\ CbSafe /\ RcBalance
 Report == \A i \in 1 .. Len(Traces) : PrintT(<<"REACHED", Traces[i].id, TLCGet(i), Len(Traces[i].ev) + 1>>)
